@@ -2,4 +2,4 @@
 Require Import ExtrOcamlBasic.
 Require Import SquidV.Bytes SquidV.RockrebuildModel.
 Extraction "m_rockrebuild.ml"
-  rebuild lestate_code entry_touched sl_touched fileno_of hdr_sane hdr_empty.
+  lenN rebuild lestate_code entry_touched sl_touched fileno_of hdr_sane hdr_empty.
